@@ -392,15 +392,24 @@ def do_call(arrays, labels, op, user_aggs):
 
         from flox.xarray import xarray_reduce
 
-        labda = xr.DataArray(lab, dims=["x"], name="lab")
+        # the caller's xarray objects live for the whole history (they are reused by later calls)
+        xo = user_aggs.setdefault("__xobj__", {})
+        key = (api, op["arr"], op.get("arr2"), op["lab"], tuple(chunks[-1]))
+        if key not in xo:
+            labda = xr.DataArray(lab, dims=["x"], name="lab", attrs={"units": "label"})
+            if api == "xarray_reduce":
+                obj = xr.DataArray(darr, dims=["x"], name="v", attrs={"units": "m"}, coords={"lab": labda, "x": np.arange(len(lab))})
+            else:
+                d2 = da.from_array(arrays[op["arr2"]], chunks=chunks)
+                obj = xr.Dataset({"a": (("x",), darr, {"units": "m"}), "b": (("x",), d2)}, coords={"lab": labda}, attrs={"title": "t"})
+            xo[key] = (obj, labda)
+            user_aggs.setdefault("__xobj_digest__", {})[key] = _xobj_digest(obj, labda)
+        obj, labda = xo[key]
         if api == "xarray_reduce":
-            obj = xr.DataArray(darr, dims=["x"], name="v")
             res = xarray_reduce(obj, labda, **kw)
             out = (res.data, np.asarray(res["lab"].values))
         else:
-            d2 = da.from_array(arrays[op["arr2"]], chunks=chunks)
-            ds = xr.Dataset({"a": (("x",), darr), "b": (("x",), d2)})
-            res = xarray_reduce(ds, labda, **kw)
+            res = xarray_reduce(obj, labda, **kw)
             out = (res["a"].data, res["b"].data, np.asarray(res["lab"].values))
     elif api in ("xr_rechunk_for_blockwise", "xr_rechunk_for_cohorts"):
         import xarray as xr
@@ -424,6 +433,20 @@ def do_call(arrays, labels, op, user_aggs):
     else:
         raise ValueError(api)
     return tuple(out)
+
+
+def _xobj_digest(obj, labda):
+    """Everything about the caller's xarray objects that a call could leave changed."""
+    import xarray as xr
+
+    def one(o):
+        if isinstance(o, xr.Dataset):
+            return [list(o.dims), sorted(map(str, o.coords)), dict(o.attrs), {k: one(o[k]) for k in o.data_vars}]
+        data = o.variable._data
+        return [list(o.dims), sorted(map(str, o.coords)), dict(o.attrs), str(o.name), repr(getattr(o, "chunks", None)),
+                getattr(data, "name", None) or digest(np.asarray(data)), str(o.dtype)]
+
+    return digest(repr([one(obj), one(labda)]), size=12)
 
 
 def _xr_digest(ds):
@@ -518,13 +541,18 @@ def run(case, tape: Tape, ctx):
             if obj_digests.setdefault(key, d) != d:
                 raise Violation("side-effect", f"op {i} ({op.get('api')}) modified its {key.split(':')[0]} argument object "
                                 f"({key})", op=i, api=op.get("api"), argument=key.split(":")[0])
+        for key, (xobj, xlab) in user_aggs.get("__xobj__", {}).items():
+            if user_aggs["__xobj_digest__"][key] != _xobj_digest(xobj, xlab):
+                raise Violation("side-effect", f"op {i} ({op.get('api')}) modified the xarray object(s) passed to it "
+                                f"(dims / coords / attrs / name / chunks / data of the caller's object changed)",
+                                op=i, api=op.get("api"), argument="xarray")
         for key, ds in user_aggs.get("__xr__", {}).items():
             d = _xr_digest(ds)
             if user_aggs.get("__xr_digest__", {}).get(key, d) != d:
                 raise Violation("side-effect", f"op {i} ({op.get('api')}) modified the xarray object passed to it "
                                 f"(chunks/variables of the caller's Dataset changed)", op=i, api=op.get("api"), argument="xarray")
         for name, agg in user_aggs.items():
-            if name in ("__objects__", "__xr__", "__xr_digest__"):
+            if name.startswith("__"):
                 continue
             d = digest(vars(agg), size=12)
             if agg_digests.setdefault(name, d) != d:
@@ -544,7 +572,7 @@ def run(case, tape: Tape, ctx):
                         # make sure the (reused) user object exists and is snapshotted BEFORE the call
                         _decode_kwargs(op["kwargs"], user_aggs)
                         for name, agg in user_aggs.items():
-                            if name not in ("__objects__", "__xr__", "__xr_digest__"):
+                            if not name.startswith("__"):
                                 agg_digests.setdefault(name, digest(vars(agg), size=12))
                         ctx.probe("custom_aggregation_reused", len([1 for o in case["ops"][:i] if o.get("op") == "call" and isinstance(dec_value(o.get("kwargs") or {}).get("func"), dict)]) > 0)
                     kw_objs = _decode_kwargs(op.get("kwargs"), user_aggs)
